@@ -11,6 +11,7 @@ From Crusta Require Import Model.Encoders Model.Graph Model.Solvers.
 From Crusta Require Import Proofs.ProgLaws Proofs.EncSpec Proofs.EncBase Proofs.EncAll Proofs.SolverBasics.
 From Crusta Require Import Proofs.SolverCc Proofs.SolverThms Proofs.MaxExtCore Proofs.MaxExtPref Proofs.MaxExtIdeal.
 From Crusta Require Proofs.GroundedProofs.
+From Crusta Require Import Proofs.Decomp Proofs.TopBase Proofs.TopMax Proofs.SolverTop.
 From Coq Require Import Lia ZifyBool.
 Import ListNotations.
 Open Scope prog_scope.
@@ -886,8 +887,342 @@ Qed.
 
 End Export.
 
+(* ------------------------------------------------------------------------------------------ *)
+(** * Whole runs: one segment of the log per component worked on *)
+
+(* [segmented P cs new]: the events [new] (most recent first) split into consecutive segments, one
+   per component of [cs] in the order the components were worked on, and the segment of c
+   satisfies [P c] *)
+Inductive segmented (P : comp -> list (nat * event) -> Prop) : list comp -> list (nat * event) -> Prop :=
+| seg_nil : segmented P [] []
+| seg_cons : forall c cs seg rest, P c seg -> segmented P cs rest -> segmented P (c :: cs) (rest ++ seg).
+
+(* the facts of a preferred / an ideal computation on the component c (its framework has the
+   arguments 0 .. |c_ids c| - 1) *)
+Definition comp_pr_ok (e : enc) (c : comp) (seg : list (nat * event)) : Prop :=
+  sat_answers_ok e (c_af c) (length (c_ids c)) seg /\
+  n_unsat seg <= length (all_exts PR (c_af c)) + 1.
+Definition comp_id_ok (e : enc) (c : comp) (seg : list (nat * event)) : Prop :=
+  exists new1 new2, seg = new2 ++ new1 /\ comp_pr_ok e c new1 /\
+                    sat_answers_ok e (c_af c) (length (c_ids c)) new2.
+
+Definition run_segs (P : comp -> list (nat * event) -> Prop) (l : list comp) (s t : Prog.st) : Prop :=
+  exists cs new, rlog t = new ++ rlog s /\ incl cs l /\ segmented P cs new.
+
+(* [R] holds of the final state however the program ends *)
+Definition every {A} (m : M A) (R : Prog.st -> Prop) (s : Prog.st) : Prop :=
+  wp R R R m (fun _ t => R t) s.
+Lemma every_match A (m : M A) R s :
+  match m s with Done _ t | Abort t | Panic t | OutOfFuel t => R t end <-> every m R s.
+Proof. unfold every, wp. destruct (m s); reflexivity. Qed.
+Lemma every_conseq A (m : M A) (R R' : Prog.st -> Prop) s : (forall t, R t -> R' t) -> every m R s -> every m R' s.
+Proof. unfold every, wp. intros H. destruct (m s); auto. Qed.
+
+Lemma segs_nil P l s : run_segs P l s s.
+Proof. exists [], []. split; [reflexivity|]. split; [intros x []|constructor]. Qed.
+Lemma segs_one P c r s t : since s (P c) t -> run_segs P (c :: r) s t.
+Proof.
+  intros (seg & Hl & Hp). exists [c], ([] ++ seg). split; [exact Hl|]. split; [intros x [<-|[]]; now left|].
+  constructor; [exact Hp|constructor].
+Qed.
+Lemma segs_step P c r s s1 t : since s (P c) s1 -> run_segs P r s1 t -> run_segs P (c :: r) s t.
+Proof.
+  intros (seg & Hl & Hp) (cs & new & Hl' & Hin & Hs). exists (c :: cs), (new ++ seg).
+  split; [rewrite Hl', Hl; apply app_assoc|]. split.
+  - intros x [<-|Hx]; [now left|right; now apply Hin].
+  - now constructor.
+Qed.
+Lemma segs_weaken P l l' s t : incl l l' -> run_segs P l s t -> run_segs P l' s t.
+Proof. intros H (cs & new & Hl & Hin & Hs). exists cs, new. split; [exact Hl|]. split; [exact (incl_tran Hin H)|exact Hs]. Qed.
+
+Lemma for_ccs_segs A P (f : A -> comp -> M A) l :
+  (forall c acc s, In c l -> every (f acc c) (since s (P c)) s) ->
+  forall acc s, every (for_ccs l acc f) (run_segs P l s) s.
+Proof.
+  induction l as [|c r IH]; intros Hf acc s; cbn [for_ccs]; unfold every.
+  - rewrite wp_ret. apply segs_nil.
+  - rewrite wp_bind.
+    eapply (wp_conseq _ (since s (P c)) (since s (P c)) (since s (P c))); try (intros t; apply segs_one).
+    eapply wp_mono; [|exact (Hf c acc s (or_introl eq_refl))].
+    intros a s1 H1. cbv beta.
+    eapply (wp_conseq _ (run_segs P r s1) (run_segs P r s1) (run_segs P r s1));
+      try (intros t; apply (segs_step P c r s s1 t H1)).
+    eapply wp_mono; [intros b t; apply (segs_step P c r s s1 t H1)|].
+    apply IH. intros c' acc' s' Hc'. apply Hf. now right.
+Qed.
+
+(* events that are not answers, logged before the computation, are absorbed *)
+Lemma sat_ok_pre e F n seg pre : no_answer pre -> sat_answers_ok e F n seg -> sat_answers_ok e F n (seg ++ pre).
+Proof.
+  intros Hna H. unfold sat_answers_ok in *. cbv zeta in *.
+  rewrite sat_sets_app, (no_answer_sat n e pre Hna), app_nil_r. exact H.
+Qed.
+Lemma comp_pr_pre e c seg pre : no_answer pre -> comp_pr_ok e c seg -> comp_pr_ok e c (seg ++ pre).
+Proof.
+  intros Hna [H1 H2]. split; [now apply sat_ok_pre|].
+  rewrite n_unsat_app, (no_answer_unsat pre Hna), Nat.add_0_r. exact H2.
+Qed.
+Lemma comp_id_pre e c seg pre : no_answer pre -> comp_id_ok e c seg -> comp_id_ok e c (seg ++ pre).
+Proof.
+  intros Hna (new1 & new2 & -> & H1 & H2). exists (new1 ++ pre), new2.
+  split; [symmetry; apply app_assoc|]. split; [now apply comp_pr_pre|exact H2].
+Qed.
+Lemma since_pre (P : list (nat * event) -> Prop) s1 s pre t :
+  (forall seg, P seg -> P (seg ++ pre)) -> rlog s1 = pre ++ rlog s -> since s1 P t -> since s P t.
+Proof.
+  intros HP Hl (seg & Hs & Hp). exists (seg ++ pre). split; [rewrite Hs, Hl; apply app_assoc|now apply HP].
+Qed.
+Lemma comp_pr_id e c seg : comp_pr_ok e c seg -> comp_id_ok e c seg.
+Proof.
+  intros H. exists seg, []. split; [reflexivity|]. split; [exact H|].
+  unfold sat_answers_ok. cbn [sat_sets length]. split; [intros S []|]. split; [|lia].
+  intros i j S T _ Hi. destruct i; discriminate.
+Qed.
+
+Section Run.
+Variable oracle : nat -> cnf -> list lit -> answer.
+Variable thr : nat.
+Hypothesis Hthr : 1 <= thr.
+Hypothesis Hvalid : valid_oracle oracle.
+Variable e : enc.
+Hypothesis Hpe : pr_enc e.
+
+Notation okc := (fun c => compact_af (c_af c) (length (c_ids c))).
+Notation PRc := (comp_pr_ok e).
+Notation IDc := (comp_id_ok e).
+
+(* the per-component bodies *)
+Lemma body_pr_max c fuel (merged : list nat) s : okc c ->
+  every (l <- pr_max_in_cc oracle thr fuel e c ;; ret (merged ++ l)) (since s (PRc c)) s.
+Proof.
+  intros Hc. unfold every. rewrite wp_bind.
+  eapply wp_mono; [|apply every_match; exact (log_preferred_se oracle thr Hthr Hvalid e Hpe c _ Hc fuel s)].
+  intros l t Ht. rewrite wp_ret. exact Ht.
+Qed.
+Lemma body_pr_ds c fuel al sc s : okc c ->
+  every (pr_ds_in_cc oracle thr fuel e c al sc) (since s (PRc c)) s.
+Proof. intros Hc. apply every_match. exact (log_preferred_ds oracle thr Hthr Hvalid e Hpe c _ Hc fuel al sc s). Qed.
+
+Lemma id_since F n s t :
+  (exists new1 new2, rlog t = new2 ++ new1 ++ rlog s /\
+     (sat_answers_ok e F n new1 /\ n_unsat new1 <= length (all_exts PR F) + 1) /\ sat_answers_ok e F n new2) ->
+  since s (fun seg => exists new1 new2, seg = new2 ++ new1 /\
+             (sat_answers_ok e F n new1 /\ n_unsat new1 <= length (all_exts PR F) + 1) /\
+             sat_answers_ok e F n new2) t.
+Proof.
+  intros (new1 & new2 & Hl & H1 & H2). exists (new2 ++ new1). split; [rewrite Hl; apply app_assoc|].
+  exists new1, new2. split; [reflexivity|]. split; assumption.
+Qed.
+
+Lemma body_id_ext c fuel s : okc c -> every (id_ext_for_cc oracle thr fuel e (c_af c)) (since s (IDc c)) s.
+Proof.
+  intros Hc. apply every_match.
+  pose proof (log_ideal_se oracle thr Hthr Hvalid e Hpe (c_af c) _ Hc fuel s) as H.
+  destruct (id_ext_for_cc oracle thr fuel e (c_af c) s); exact (id_since _ _ s _ H).
+Qed.
+Lemma body_id_cred c fuel la s : okc c -> every (id_cred_for_cc oracle thr fuel e (c_af c) la) (since s (IDc c)) s.
+Proof.
+  intros Hc. apply every_match.
+  pose proof (log_ideal_cred oracle thr Hthr Hvalid e Hpe (c_af c) _ Hc fuel la s) as H.
+  destruct (id_cred_for_cc oracle thr fuel e (c_af c) la s); exact (id_since _ _ s _ H).
+Qed.
+
+(* id_se opens a session per component that is never used, then id_ext_for_cc opens its own *)
+Lemma body_id_se c fuel (merged : list nat) s : okc c ->
+  every (new_solver ;;; encode_m thr e false (c_af c) ;;;
+         l <- id_ext_for_cc oracle thr fuel e (c_af c) ;; ret (merged ++ lift c l)) (since s (IDc c)) s.
+Proof.
+  intros Hc. unfold every.
+  destruct (enc_reserve thr Hthr e (c_af c) _ Hc Hpe) as (r & C & HE & _).
+  rewrite wp_bind, wp_new_solver, wp_bind, (wp_encode_m thr _ _ _ e false (c_af c) (Some r) C _ _ HE), wp_bind.
+  set (s1 := st_encoded (st_new s) (Some r) C).
+  destruct (rlog_encoded (st_new s) (Some r) C) as (pre & Hpre & Hna). fold s1 in Hpre.
+  assert (Hl1 : rlog s1 = (pre ++ [(S (nsess s), ENew)]) ++ rlog s) by (rewrite Hpre, <- app_assoc; reflexivity).
+  assert (Hna1 : no_answer (pre ++ [(S (nsess s), ENew)])).
+  { apply no_answer_app; [exact Hna|apply no_answer_cons; [discriminate|apply no_answer_nil]]. }
+  assert (Hconv : forall t, since s1 (IDc c) t -> since s (IDc c) t).
+  { intros t. apply (since_pre _ s1 s _ t (fun seg => comp_id_pre e c seg _ Hna1) Hl1). }
+  eapply (wp_conseq _ (since s1 (IDc c)) (since s1 (IDc c)) (since s1 (IDc c))); try exact Hconv.
+  eapply wp_mono; [|exact (body_id_ext c fuel s1 Hc)].
+  intros l t Ht. rewrite wp_ret. exact (Hconv t Ht).
+Qed.
+
+Section Entries.
+Variable g : gview.
+Variable fuel : nat.
+
+Theorem pr_se_segs s : (forall c, In c (all_comps g) -> okc c) ->
+  every (pr_se oracle thr fuel e g) (run_segs PRc (all_comps g) s) s.
+Proof.
+  unfold pr_se, ccs_m, all_comps. intros Hok. unfold every. destruct (all_ccs g) as [ccs|].
+  - rewrite wp_bind, wp_ret, wp_bind. eapply wp_mono; [|apply for_ccs_segs].
+    + intros r t Ht. rewrite wp_ret. exact Ht.
+    + intros c acc s' Hc. apply body_pr_max. now apply Hok.
+  - rewrite wp_bind, wp_panic. apply segs_nil.
+Qed.
+
+Theorem pr_ds_segs al s : (forall c, In c (merged_comps g al) -> okc c) ->
+  every (pr_ds oracle thr fuel e g al) (run_segs PRc (merged_comps g al) s) s.
+Proof.
+  unfold pr_ds, merged_m, merged_comps. intros Hok. unfold every.
+  destruct (merged_cc_of g (cc_new g) al) as [[s' c]|].
+  - rewrite wp_bind, wp_ret, wp_bind. cbn [snd].
+    eapply (wp_conseq _ (since s (PRc c)) (since s (PRc c)) (since s (PRc c))); try (intros t; apply segs_one).
+    eapply wp_mono; [|apply body_pr_ds; apply Hok; now left].
+    intros r t Ht. rewrite wp_ret. now apply segs_one.
+  - rewrite wp_bind, wp_panic. apply segs_nil.
+Qed.
+
+Theorem pr_ds_cert_segs al s : (forall c, In c (merged_comps g al) -> okc c) ->
+  every (pr_ds_cert oracle thr fuel e g al) (run_segs PRc (merged_comps g al) s) s.
+Proof.
+  unfold pr_ds_cert, merged_m, merged_comps. intros Hok. unfold every.
+  destruct (merged_cc_of g (cc_new g) al) as [[s' c]|]; [|rewrite wp_bind, wp_panic; apply segs_nil].
+  rewrite wp_bind, wp_ret, wp_bind. cbn [snd fst].
+  eapply (wp_conseq _ (since s (PRc c)) (since s (PRc c)) (since s (PRc c))); try (intros t; apply segs_one).
+  eapply wp_mono; [|apply body_pr_ds; apply Hok; now left].
+  intros [b ce] s1 H1. unfold remaining_m.
+  destruct b, ce as [ce|]; try (rewrite wp_ret; now apply segs_one); try (rewrite wp_panic; now apply segs_one).
+  destruct (remaining_ccs g s') as [others|]; [|rewrite wp_bind, wp_panic; now apply segs_one].
+  rewrite wp_bind, wp_ret, wp_bind.
+  eapply (wp_conseq _ (run_segs PRc others s1) (run_segs PRc others s1) (run_segs PRc others s1));
+    try (intros t; apply (segs_step PRc c others s s1 t H1)).
+  eapply wp_mono; [|apply for_ccs_segs].
+  - intros r t Ht. rewrite wp_ret. exact (segs_step PRc c others s s1 t H1 Ht).
+  - intros c' acc s'' Hc'. apply body_pr_max. apply Hok. now right.
+Qed.
+
+Theorem id_se_segs s : (forall c, In c (all_comps g) -> okc c) ->
+  every (id_se oracle thr fuel e g) (run_segs IDc (all_comps g) s) s.
+Proof.
+  unfold id_se, ccs_m, all_comps. intros Hok. unfold every. destruct (all_ccs g) as [ccs|].
+  - rewrite wp_bind, wp_ret, wp_bind. eapply wp_mono; [|apply for_ccs_segs].
+    + intros r t Ht. rewrite wp_ret. exact Ht.
+    + intros c acc s' Hc. apply body_id_se. now apply Hok.
+  - rewrite wp_bind, wp_panic. apply segs_nil.
+Qed.
+
+Theorem id_dc_segs al s : (forall c, In c (merged_comps g al) -> okc c) ->
+  every (id_dc oracle thr fuel e g al) (run_segs IDc (merged_comps g al) s) s.
+Proof.
+  unfold id_dc, merged_m, locals_m, merged_comps. intros Hok. unfold every.
+  destruct (merged_cc_of g (cc_new g) al) as [[s' c]|]; [|rewrite wp_bind, wp_panic; apply segs_nil].
+  rewrite wp_bind, wp_ret, wp_bind. cbn [snd].
+  destruct (locals c al) as [la|]; [rewrite wp_ret|rewrite wp_panic; apply segs_nil]. rewrite wp_bind.
+  eapply (wp_conseq _ (since s (IDc c)) (since s (IDc c)) (since s (IDc c))); try (intros t; apply segs_one).
+  eapply wp_mono; [|apply body_id_cred; apply Hok; now left].
+  intros r t Ht. rewrite wp_ret. now apply segs_one.
+Qed.
+
+Theorem id_dc_cert_segs al s : (forall c, In c (merged_comps g al) -> okc c) ->
+  every (id_dc_cert oracle thr fuel e g al) (run_segs IDc (merged_comps g al) s) s.
+Proof.
+  unfold id_dc_cert, merged_m, locals_m, merged_comps. intros Hok. unfold every.
+  destruct (merged_cc_of g (cc_new g) al) as [[s' c]|]; [|rewrite wp_bind, wp_panic; apply segs_nil].
+  rewrite wp_bind, wp_ret, wp_bind. cbn [snd fst].
+  destruct (locals c al) as [la|]; [rewrite wp_ret|rewrite wp_panic; apply segs_nil]. rewrite wp_bind.
+  eapply (wp_conseq _ (since s (IDc c)) (since s (IDc c)) (since s (IDc c))); try (intros t; apply segs_one).
+  eapply wp_mono; [|apply body_id_cred; apply Hok; now left].
+  intros [b ce] s1 H1. unfold remaining_m.
+  destruct b, ce as [ce|]; try (rewrite wp_ret; now apply segs_one).
+  destruct (remaining_ccs g s') as [others|]; [|rewrite wp_bind, wp_panic; now apply segs_one].
+  rewrite wp_bind, wp_ret, wp_bind.
+  eapply (wp_conseq _ (run_segs IDc others s1) (run_segs IDc others s1) (run_segs IDc others s1));
+    try (intros t; apply (segs_step IDc c others s s1 t H1)).
+  eapply wp_mono; [|apply for_ccs_segs].
+  - intros r t Ht. rewrite wp_ret. exact (segs_step IDc c others s s1 t H1 Ht).
+  - intros c' acc s'' Hc'. unfold every. rewrite wp_bind.
+    eapply wp_mono; [|apply body_id_ext; apply Hok; now right].
+    intros l t Ht. rewrite wp_ret. exact Ht.
+Qed.
+
+Theorem id_ds_cert_segs al s : (forall c, In c (all_comps g) -> okc c) ->
+  every (id_ds_cert oracle thr fuel e g al) (run_segs IDc (all_comps g) s) s.
+Proof.
+  intros Hok. unfold id_ds_cert, every. rewrite wp_bind.
+  eapply wp_mono; [|exact (id_se_segs s Hok)].
+  intros [ext|] t Ht; [destruct (meets al ext); rewrite wp_ret; exact Ht|rewrite wp_panic; exact Ht].
+Qed.
+
+End Entries.
+End Run.
+
+(* the dispatcher: every PR / ID entry point of run_query *)
+Lemma every_bind_ret A B (m : M A) (f : A -> B) R s : every m R s -> every (r <- m ;; ret (f r)) R s.
+Proof. unfold every. intros H. rewrite wp_bind. eapply wp_mono; [|exact H]. intros a t Ht. rewrite wp_ret. exact Ht. Qed.
+
+Definition comp_log_ok (s : sem) (e : enc) : comp -> list (nat * event) -> Prop :=
+  match s with ID => comp_id_ok e | _ => comp_pr_ok e end.
+
+Theorem run_query_segs : forall oracle thr g F,
+  valid_oracle oracle -> 1 <= thr -> view_good g F ->
+  forall s q cert e al fuel st0, s = PR \/ s = ID ->
+  supported s q -> enc_ok s e -> al_ok s q F al ->
+  match run_query oracle thr fuel s q cert e g al st0 with
+  | Done _ t | Abort t | Panic t | OutOfFuel t =>
+      run_segs (comp_log_ok s e) (query_comps s q cert g al) st0 t
+  end.
+Proof.
+  intros oracle thr g F Hv Ht Hvg s q cert e al fuel st0 Hs Hsup He Ha.
+  pose proof (query_comps_decomp g F s q cert al Hvg Ha) as Hd.
+  assert (Hok : forall c, In c (query_comps s q cert g al) -> compact_af (c_af c) (length (c_ids c))).
+  { intros c Hc. exact (d_compact _ _ Hd c Hc). }
+  assert (Hpe : pr_enc e) by (destruct Hs as [-> | ->]; exact He).
+  apply every_match. unfold run_query.
+  destruct Hs as [-> | ->]; destruct q; cbn [supported] in Hsup; try contradiction;
+    cbn [query_comps comp_log_ok] in *.
+  - apply every_bind_ret. exact (pr_se_segs oracle thr Ht Hv e Hpe g fuel st0 Hok).
+  - destruct cert; apply every_bind_ret.
+    + exact (pr_ds_cert_segs oracle thr Ht Hv e Hpe g fuel al st0 Hok).
+    + exact (pr_ds_segs oracle thr Ht Hv e Hpe g fuel al st0 Hok).
+  - apply every_bind_ret. exact (id_se_segs oracle thr Ht Hv e Hpe g fuel st0 Hok).
+  - destruct cert; apply every_bind_ret.
+    + exact (id_dc_cert_segs oracle thr Ht Hv e Hpe g fuel al st0 Hok).
+    + exact (id_dc_segs oracle thr Ht Hv e Hpe g fuel al st0 Hok).
+  - destruct cert; apply every_bind_ret.
+    + exact (id_ds_cert_segs oracle thr Ht Hv e Hpe g fuel al st0 Hok).
+    + exact (id_dc_segs oracle thr Ht Hv e Hpe g fuel al st0 Hok).
+Qed.
+
+(* consequence for the whole log: summing over the segments, the run received at most
+   sum |base(c)| (PR) resp. 2 * sum |base(c)| (ID) Sat answers *)
+Fixpoint n_sat (l : list (nat * event)) : nat :=
+  match l with
+  | [] => 0
+  | (_, ESolve _ (Sat _)) :: r => S (n_sat r)
+  | _ :: r => n_sat r
+  end.
+Lemma n_sat_sets n e l : length (sat_sets n e l) = n_sat l.
+Proof.
+  induction l as [|[k ev] r IH]; [reflexivity|]. cbn [sat_sets n_sat].
+  destruct ev as [| | | |a [m| |]]; cbn [length]; now rewrite IH.
+Qed.
+Lemma n_sat_app l l' : n_sat (l ++ l') = n_sat l + n_sat l'.
+Proof.
+  induction l as [|[k ev] r IH]; [reflexivity|]. cbn [app n_sat].
+  destruct ev as [| | | |a [m| |]]; cbn [app]; rewrite IH; reflexivity.
+Qed.
+Definition base_count (e : enc) (cs : list comp) : nat :=
+  fold_right (fun c acc => length (all_base (enc_base e) (c_af c)) + acc) 0 cs.
+
+Lemma segmented_pr_count e cs new : segmented (comp_pr_ok e) cs new -> n_sat new <= base_count e cs.
+Proof.
+  induction 1 as [|c cs seg rest [(_ & _ & H3) _] _ IH]; [cbn; lia|].
+  rewrite n_sat_app. cbn [base_count fold_right]. fold (base_count e cs).
+  rewrite (n_sat_sets (length (c_ids c)) e seg) in H3. lia.
+Qed.
+Lemma segmented_id_count e cs new : segmented (comp_id_ok e) cs new -> n_sat new <= 2 * base_count e cs.
+Proof.
+  induction 1 as [|c cs seg rest (new1 & new2 & -> & [(_ & _ & H3) _] & (_ & _ & H4)) _ IH]; [cbn; lia|].
+  rewrite !n_sat_app. cbn [base_count fold_right]. fold (base_count e cs).
+  rewrite (n_sat_sets (length (c_ids c)) e new1) in H3. rewrite (n_sat_sets (length (c_ids c)) e new2) in H4. lia.
+Qed.
+
 Print Assumptions compute_next_step.
 Print Assumptions log_preferred_se.
 Print Assumptions log_preferred_ds.
 Print Assumptions log_ideal_se.
 Print Assumptions log_ideal_cred.
+Print Assumptions run_query_segs.
+Print Assumptions segmented_pr_count.
+Print Assumptions segmented_id_count.
